@@ -79,7 +79,8 @@ def make_sim(case):
     if drv in HID:
         sim = HidSim(drv, initial_seq=case.get("seq0", 1), reconnect_interval=case.get("reconnect_interval", 1),
                      reconnect_limit=case.get("reconnect_limit"), exceptions_on_send=case.get("exceptions", True),
-                     present=case.get("present_at_start", True), dev_inst_map=case.get("_dev_inst_map"))
+                     present=case.get("present_at_start", True), dev_inst_map=case.get("_dev_inst_map"),
+                     glob=case.get("glob", False))
     else:
         sim = SerialSim(drv)
     sim.latencies = list(case.get("lat", []))
@@ -282,10 +283,14 @@ def run(case, hooks=None):
                 sim.restore()
             elif what == "mute":
                 sim.gw.mute = True
+            elif what == "mute_mid":
+                # the gateway falls silent in the MIDDLE of its next packet: k bytes still arrive
+                sim.gw.mute_after_bytes = arg.get("bytes", 1)
             elif what == "mute_answers":
                 sim.gw.mute_answers = True
             elif what == "unmute":
                 sim.gw.mute = sim.gw.mute_answers = False
+                sim.gw.cut = False
             elif what == "call":
                 hooks["call"](sim, arg)
             sim.loop.settle()
